@@ -2,6 +2,7 @@ from ..mesh.mesh_data import RawMeshData
 from ..utils import keyify
 from ..mesh.datatypes import *
 from ..mesh.mesh_attributes import Attribute
+from ..geometry.geometry import det_3x3
 
 @allowed_mesh_types(SurfaceMesh)
 def extract_border_cycle(mesh : SurfaceMesh, starting_point : int = None):
@@ -124,8 +125,17 @@ def extract_boundary_of_volume(mesh : VolumeMesh) -> SurfaceMesh :
         bound.vertices.append(mesh.vertices[v].copy())
         map_m2b[v] = i
         map_b2m[i] = v
-    # apply ordering to faces
+    # apply ordering to faces and orient triangles outwards (same test as VolumeMesh._BoundaryConnectivity)
     for i, iF in enumerate(bound.faces):
-        bound.faces[i] = tuple(( map_m2b[v] for v in mesh.faces[iF]))
+        face = tuple(( map_m2b[v] for v in mesh.faces[iF]))
+        cells_iF = mesh.connectivity.face_to_cells(iF)
+        if len(face)==3 and len(cells_iF)>0:
+            iC = cells_iF[0]
+            pA,pB,pC = (mesh.vertices[_x] for _x in mesh.faces[iF])
+            D = [x for x in mesh.cells[iC] if x not in mesh.faces[iF]][0] # fourth point in cell but not on face
+            pD = mesh.vertices[D]
+            if not det_3x3(pA-pD,pB-pD,pC-pD)>0:
+                face = (face[0],face[2],face[1])
+        bound.faces[i] = face
     bound.prepare() # ordering will be propagated to edges
     return SurfaceMesh(bound), map_m2b, map_b2m
